@@ -1,6 +1,4 @@
 import Compass.Proofs.Interp
 open Compass Compass.Interp
-#print axioms linear2_ok
-#print axioms interpolate_d2_out
-#print axioms validate2_ok_iff
-#print axioms Sel.indep
+#print axioms linearN_ok
+#check @linearN_ok
